@@ -52,8 +52,15 @@ BASES_L = ("log", "a.1", "x.gz", "my_log.txt")
 BASES_P = ("db", "s.1", "st.idx")
 
 
+# a small ASan quarantine: every case opens a dozen streams (8 KB buffers each); with the default
+# 256 MB quarantine each of them lands on fresh pages and the page faults dominate the run (10x)
+ASAN = ("detect_leaks=0:abort_on_error=0:halt_on_error=1:allocator_may_return_null=1:"
+        "detect_stack_use_after_return=0:quarantine_size_mb=4")
+
+
 def build(tier):
-    return {"impl": [B.harness("h_c29", variant="asan_assert", runtime=None)], "per_case_timeout": 60}
+    return {"impl": [B.harness("h_c29", variant="asan_assert", runtime=None)], "per_case_timeout": 60,
+            "env": {"ASAN_OPTIONS": ASAN}}
 
 
 def run_impl(built, cases, tier):
